@@ -103,7 +103,7 @@ func generate(e *vh.Env) []scenario {
 				ph = append(ph, p)
 			}
 		}
-		out = append(out, scenario{class: class, maxc: maxc, strategy: staticStrategy(ph)})
+		out = append(out, scenario{class: class, maxc: maxc, strategy: staticStrategy(ph), closeErr: r.Intn(3) == 0})
 	}
 	big := e.Thorough || e.Search
 	ks := func() []int { // queued sends
@@ -122,6 +122,11 @@ func generate(e *vh.Env) []scenario {
 			for _, k := range ks() {
 				ph := [][]label{{lStartL(0, tr, true)}, sends(0, k, r, &seq), termLabels(ev, 0, r, &seq)}
 				ph = append(ph, after()...)
+				if ev != tPeerClose {
+					// the peer keeps its end open and keeps writing after the session is over: the read handler must not
+					// be called any more (observed again one phase later: a byte in flight would show up there)
+					ph = append(ph, []label{lb(aPeerByte, 0)}, []label{lb(aStartAgain, 0)}, []label{lb(aPeerByte, 0)}, []label{lb(aStartAgain, 0)})
+				}
 				add("one/"+termNames[ev], -1, ph...)
 			}
 		}
@@ -151,7 +156,8 @@ func generate(e *vh.Env) []scenario {
 	// 3. flush before a local close: 0..20 sends accepted before Close, a peer that reads everything
 	for tr := 0; tr < 2; tr++ {
 		for k := 0; k <= 20; k++ {
-			add("flush/burst", -1, []label{lStartL(0, tr, true)}, cat(sends(0, k, r, &seq), []label{lb(aLocalClose, 0)}), after()[0])
+			add("flush/burst", -1, []label{lStartL(0, tr, true)}, cat(sends(0, k, r, &seq), []label{lb(aLocalClose, 0)}), after()[0],
+				[]label{lb(aPeerByte, 0)}, []label{lb(aStartAgain, 0)})
 			if big || k%4 == tr {
 				ph := [][]label{{lStartL(0, tr, true)}}
 				for j := 0; j < k; j++ {
@@ -227,21 +233,79 @@ func generate(e *vh.Env) []scenario {
 			}
 		}
 	}
+	// 6c. concurrent Sends from several goroutines on one session, then Close with a reading peer: every Send is one
+	//     atomic enqueue, so the stream must be the payloads in SOME order, each contiguous.  Large payloads (every
+	//     payload symbol is 8 or 32 KiB handed to Session.Send: 40 KiB .. 1 MiB per Send) and small ones.
+	nConc := e.Scale(4, 15)
+	for n := 0; n < nConc && want("concurrent-sends"); n++ {
+		for tr := 0; tr < 2; tr++ {
+			for _, large := range []bool{true, false} {
+				samp := 1
+				if large {
+					samp = []int{8 << 10, 32 << 10, 32 << 10}[r.Intn(3)]
+				}
+				// one to three rounds of concurrent calls on the same session, then Close (sometimes inside the last round)
+				ph := [][]label{{lStartL(0, tr, true)}}
+				rounds := 1 + r.Intn(3)
+				id := 0
+				closeInGroup := false
+				for rd := 0; rd < rounds; rd++ {
+					k := 2 + r.Intn(7) // 2..8 goroutines
+					var grp []label
+					for j := 0; j < k; j++ {
+						var p []byte
+						if large {
+							l := 5 + r.Intn(8) // 8 KiB symbols: 40..96 KiB
+							if samp == 32<<10 {
+								l = 8 + r.Intn(25) // 32 KiB symbols: 256 KiB .. 1 MiB
+							}
+							id++
+							p = make([]byte, l)
+							for x := range p {
+								p[x] = byte(id)
+							}
+						} else {
+							p = payload(r, &seq)
+						}
+						s := lSend(0, p)
+						s.par = true
+						grp = append(grp, s)
+					}
+					if rd == rounds-1 && r.Intn(4) == 0 {
+						closeInGroup = true
+						c := lb(aLocalClose, 0)
+						c.par = true
+						grp = append(grp, c)
+					}
+					ph = append(ph, grp)
+				}
+				if !closeInGroup {
+					ph = append(ph, []label{lb(aLocalClose, 0)})
+				}
+				ph = append(ph, after()[0])
+				cl := "concurrent-sends/small"
+				if large {
+					cl = "concurrent-sends/large"
+				}
+				out = append(out, scenario{class: cl, maxc: -1, sendAmp: samp, strategy: staticStrategy(ph), closeErr: r.Intn(3) == 0})
+			}
+		}
+	}
 	// 7. the accept loop with a maximum
 	nAcc := e.Scale(36, 400)
 	for n := 0; n < nAcc && want("accept"); n++ {
 		maxc := int64([]int{1, 2, 3, 1, 2, 3, 0}[n%7])
-		out = append(out, scenario{class: fmt.Sprintf("accept/max=%d", maxc), maxc: maxc, strategy: walk(rand.New(rand.NewSource(r.Int63())), walkCfg{accept: true, steps: 8 + r.Intn(8)})})
+		out = append(out, scenario{class: fmt.Sprintf("accept/max=%d", maxc), maxc: maxc, strategy: walk(rand.New(rand.NewSource(r.Int63())), walkCfg{accept: true, steps: 8 + r.Intn(8)}), closeErr: r.Intn(3) == 0})
 	}
 	// 8. several sessions on one manager
 	nMulti := e.Scale(30, 400)
 	for n := 0; n < nMulti && want("multi"); n++ {
-		out = append(out, scenario{class: "multi", maxc: -1, strategy: walk(rand.New(rand.NewSource(r.Int63())), walkCfg{direct: 2 + r.Intn(3), steps: 6 + r.Intn(8)})})
+		out = append(out, scenario{class: "multi", maxc: -1, strategy: walk(rand.New(rand.NewSource(r.Int63())), walkCfg{direct: 2 + r.Intn(3), steps: 6 + r.Intn(8)}), closeErr: r.Intn(3) == 0})
 	}
 	// 9. one session, random walk with bursts
 	nWalk := e.Scale(120, 2500)
 	for n := 0; n < nWalk && want("walk"); n++ {
-		out = append(out, scenario{class: "walk", maxc: -1, strategy: walk(rand.New(rand.NewSource(r.Int63())), walkCfg{direct: 1, steps: 4 + r.Intn(8)})})
+		out = append(out, scenario{class: "walk", maxc: -1, strategy: walk(rand.New(rand.NewSource(r.Int63())), walkCfg{direct: 1, steps: 4 + r.Intn(8)}), closeErr: r.Intn(3) == 0})
 	}
 	return out
 }
@@ -362,7 +426,7 @@ func walk(r *rand.Rand, cfg walkCfg) func(stM, int) []label {
 					cand = []label{lb(aPeerRead, i)}
 				}
 			case c < 18:
-				if burst == 1 && s.recvl && !s.rcause && s.copen && s.peerOpen {
+				if burst == 1 && s.peerOpen { // to a live session: consumed; to one that is over: the handler stays silent
 					cand = []label{lb(aPeerByte, i)}
 				}
 			case c < 19:
